@@ -198,14 +198,14 @@ def judge_timing(case, ob):
             return "no push, timeout %s s: replied %s" % (tmo, r)
         if el < ms:
             return "null after %d ms, timeout %d ms" % (el, ms)
-        if el > ms + 1000:
+        if el > ms + 4000:
             return "null only after %d ms, timeout %d ms" % (el, ms)
         return None
     want = "b" if right else "a"
     good = ("HA2_B746b_B" + want.encode().hex()) if through_handler else "B" + want
     if r != good:
         return "push of [a b] after %s ms: replied %s, expected %s" % (push, r, good)
-    if el > int(push) + 800:
+    if el > int(push) + 4000:
         return "element delivered only after %d ms (pushed at %s ms)" % (el, push)
     return None
 
